@@ -24,7 +24,8 @@ RULE = ('sample tables of 1..5 rows over generated FCS files x every assignment 
         'fraction<0, fraction>1, unknown units, calibration failed / absent / no curve for channel, beads of another '
         'instrument / amplifier type / detector voltage} (exhaustive for <=2 rows quick, <=3 rows thorough; fractions also outside [0,1] by only 1e-9) + random 4-5 row '
         'tables + permutations; bead tables with {missing file, <400 events, fraction out of range, unequal MEF lists}; '
-        'empty tables; non-trivial = table with >= 1 faulty row; distinct = (row specs, fault assignment)')
+        'empty tables; non-trivial = table with >= 1 faulty row; distinct = (row specs, fault assignment)'
+        ' Also: unopenable path spellings for the missing-file fault, mismatches in the second calibrated channel only, rendering under another row order, the batch without the optional beads table.')
 ASSUMPTIONS = ['healthy rows compared with their single-row runs sharing the same calibration objects',
                'Beads ID / Instrument ID that exist nowhere are not among the documented faults: not generated']
 MIN_CHECKS = {'quick': 1500, 'thorough': 30000}
